@@ -5,7 +5,7 @@
 From Coq Require Import Arith List ZArith QArith Qcanon Reals.
 From GPV Require Import Base.LinAlg Base.Exec Base.Expr Models.C14_variational Models.C01_posterior
   Models.C04_fantasy Models.C17_constraints Proofs.C17_constraints Models.C07_psd Proofs.C07_psd Proofs.C07_more
-  Proofs.C07_gramform Base.Psd Proofs.C07_variational Proofs.C07_real Proofs.C07_policy.
+  Proofs.C07_gramform Base.Psd Proofs.C07_variational Proofs.C07_real Proofs.C07_policy Proofs.C07_noise.
 Import ListNotations.
 
 (* ---- Gram-type kernels are PSD for ALL inputs, sizes, dimensions and admissible parameters - *)
@@ -408,6 +408,53 @@ Theorem c07_fixed_noise_clamped :
   forall mn noise k, (k < length noise)%nat -> (mn <= nth k (fixed_noise_clamp mn noise) 0%Qc)%Qc.
 Proof. exact fixed_noise_clamp_spec. Qed.
 Print Assumptions c07_fixed_noise_clamped.
+
+(* ---- the noise floor of ANY diagonal noise model (heteroskedastic, noise_indices, multitask task noises, fixed + learned):
+   K PSD, d_i >= lb >= 0  ==>  K + diag(d) PSD, every marginal variance >= latent variance + lb (all sizes, any ordered field) *)
+Theorem c07_marginal_diag_noise_psd :
+  forall (K : Fld) (O : OrdFld K) n (Kxx : @M K) (d : nat -> @car K) (lb : @car K),
+    PSD n Kxx -> fle f0 lb -> (forall i, (i < n)%nat -> fle lb (d i)) ->
+    PSD n (madd Kxx (mdiag d)) /\
+    (forall i, (i < n)%nat -> fle (fadd (Kxx i i) lb) (madd Kxx (mdiag d) i i)) /\
+    (forall i, (i < n)%nat -> fle f0 (madd Kxx (mdiag d) i i)).
+Proof. intros K O. exact (@marginal_diag_noise_psd K O). Qed.
+Print Assumptions c07_marginal_diag_noise_psd.
+
+Example ex_noise_floor_hyps :
+  @PSD QcF QcOrd 2 (@mdiag QcF (fun _ => 1%Qc)) /\ (@fle QcF QcOrd 0%Qc (Q2Qc (1 # 10000))) /\
+  (forall i, (i < 2)%nat -> @fle QcF QcOrd (Q2Qc (1 # 10000)) (if Nat.eqb i 0 then Q2Qc (1 # 10000) else Q2Qc 3)).
+Proof. exact ex_noise_floor_hyps_holds. Qed.
+
+Theorem c07_added_noise_minus_floor_psd :
+  forall (K : Fld) (O : OrdFld K) n (d : nat -> @car K) (lb : @car K),
+    (forall i, (i < n)%nat -> fle lb (d i)) -> PSD n (mdiag (fun i => fsub (d i) lb)).
+Proof. intros K O. exact (@added_noise_minus_floor_psd K O). Qed.
+Print Assumptions c07_added_noise_minus_floor_psd.
+
+(* HeteroskedasticNoise: noise_i = transform(level_i) for ANY real level (negative included), any selection of outputs *)
+Theorem c07_heteroskedastic_marginal_valid :
+  forall n (Kxx : @M RF) lb (level : nat -> R),
+    @PSD RF ROrd n Kxx -> (0 <= Q2R' lb)%R ->
+    let d := fun i => transform_R (CGreater lb) (level i) in
+    @PSD RF ROrd n (@madd RF Kxx (@mdiag RF d)) /\
+    (forall i, (i < n)%nat -> (Kxx i i + Q2R' lb <= @madd RF Kxx (@mdiag RF d) i i)%R) /\
+    (forall i, (i < n)%nat -> (Q2R' lb < d i)%R).
+Proof. exact heteroskedastic_marginal_valid. Qed.
+Print Assumptions c07_heteroskedastic_marginal_valid.
+
+Theorem c07_interval_noise_in_bounds :
+  forall l u (x : R), (Q2R' l < Q2R' u)%R -> (Q2R' l < transform_R (CInterval l u) x < Q2R' u)%R.
+Proof. exact interval_noise_in_bounds. Qed.
+Print Assumptions c07_interval_noise_in_bounds.
+
+Theorem c07_heteroskedastic_interval_marginal_valid :
+  forall n (Kxx : @M RF) l u (level : nat -> R),
+    @PSD RF ROrd n Kxx -> (0 <= Q2R' l)%R -> (Q2R' l < Q2R' u)%R ->
+    let d := fun i => transform_R (CInterval l u) (level i) in
+    @PSD RF ROrd n (@madd RF Kxx (@mdiag RF d)) /\
+    (forall i, (i < n)%nat -> (Kxx i i + Q2R' l <= @madd RF Kxx (@mdiag RF d) i i)%R).
+Proof. exact heteroskedastic_interval_marginal_valid. Qed.
+Print Assumptions c07_heteroskedastic_interval_marginal_valid.
 
 (* ---- the certificate the correspondence runs on the implementation's matrices -------------- *)
 Theorem c07_psd_certificate_sound :
